@@ -2,17 +2,23 @@
    The model's results are [Ok _ | Err | Panic]; an Err carries no new memory or state, so "rejected
    without side effects" is the statement "= Err"; every usize subtraction, slice, unwrap of the
    transcribed bodies is a partial primitive that yields Panic where Rust would panic.
-   PARTIAL: panic-freedom of the twelve cts bodies for every L >= block size is part of C05
-   (Props/C05.v states what is proved there); key/IV slice-length gates and the unequal-length gates
+   PARTIAL: key/IV slice-length gates and the unequal-length gates
    of the *_b2b helpers live in the interpreter (Interp.step) and are tied to the code by the
    correspondence runs of gen/props/c13.py only. *)
-From BM Require Import BlockModes Plumbing Toy Ints Ctr Belt Stream Cts Stream_proofs Interp Wrapper_proofs Wrapper_inst Gates_proofs.
+From BM Require Import BlockModes Plumbing Toy Ints Ctr Belt Stream Cts Cts_mem Stream_proofs Interp Wrapper_proofs Wrapper_inst Gates_proofs Cts_dec_proofs.
 From Coq Require Import ZArith.
 
 (* ciphertext stealing: shorter than one block is an error, for all six variants, both directions *)
 Theorem C13_cts_short : forall C v enc iv m, mlen m < c_bs C -> cts_run C v enc iv m = Err.
 Proof. exact cts_short_is_err. Qed.
 Print Assumptions C13_cts_short.
+
+(* ... and every input of at least one block is accepted by all twelve bodies -- arbitrary bytes, in
+   place or buffer-to-buffer: no panic, no error, the buffer keeps its length *)
+Theorem C13_cts_total : forall C, cipher_wf C -> forall v enc iv m, mwf m -> c_bs C <= mlen m -> length iv = c_bs C ->
+  exists m', cts_run C v enc iv m = Ok m' /\ mlen m' = mlen m.
+Proof. exact cts_total. Qed.
+Print Assumptions C13_cts_total.
 
 (* padded encryption: message longer than the buffer, or no room for the padding block, or NoPadding
    on a partial block; padded decryption: length not a multiple of the block size, or output too short *)
